@@ -1142,6 +1142,33 @@ fn faults() -> Vec<Fault> {
     Fault { name: "unknown-path", req: Req { method: "POST", path: "/no/such/endpoint".into(), content_type: None, body: vec![] } },
     Fault { name: "evaluate-path-with-too-few-segments", req: Req { method: "POST", path: "/evaluate/model1".into(), content_type: None, body: vec![] } },
   ];
+  // a typed value that cannot be decoded (a number that is none, a type that does not exist, a date that does not exist),
+  // not as the input value itself but nested in it: as an item of a list (first, middle, last, only), in a component, in a
+  // list in a component, in a list in a list. The request is answered with errors, not evaluated on what is left of the input.
+  {
+    const NESTED: [&str; 21] = [
+      "tck-invalid-number-in-list-only", "tck-invalid-number-in-list-first", "tck-invalid-number-in-list-middle", "tck-invalid-number-in-list-last", "tck-invalid-number-in-component", "tck-invalid-number-in-list-in-component", "tck-invalid-number-in-list-in-list",
+      "tck-unknown-type-in-list-only", "tck-unknown-type-in-list-first", "tck-unknown-type-in-list-middle", "tck-unknown-type-in-list-last", "tck-unknown-type-in-component", "tck-unknown-type-in-list-in-component", "tck-unknown-type-in-list-in-list",
+      "tck-impossible-date-in-list-only", "tck-impossible-date-in-list-first", "tck-impossible-date-in-list-middle", "tck-impossible-date-in-list-last", "tck-impossible-date-in-component", "tck-impossible-date-in-list-in-component", "tck-impossible-date-in-list-in-list",
+    ];
+    let good = tck_simple("xsd:decimal", "1");
+    let list = |items: Vec<String>| format!("{{\"list\":{{\"items\":[{}],\"isNil\":false}}}}", items.join(","));
+    let comp = |value: String| format!("{{\"components\":[{{\"name\":\"k\",\"value\":{},\"isNil\":false}}]}}", value);
+    for (b, bad) in [tck_simple("xsd:decimal", "two"), tck_simple("xsd:foo", "1"), tck_simple("xsd:date", "2021-02-30")].iter().enumerate() {
+      let shapes = vec![
+        list(vec![bad.clone()]),
+        list(vec![bad.clone(), good.clone(), good.clone()]),
+        list(vec![good.clone(), bad.clone(), good.clone()]),
+        list(vec![good.clone(), good.clone(), bad.clone()]),
+        comp(bad.clone()),
+        comp(list(vec![good.clone(), bad.clone()])),
+        list(vec![list(vec![good.clone()]), list(vec![bad.clone(), good.clone()])]),
+      ];
+      for (k, value) in shapes.into_iter().enumerate() {
+        v.push(Fault { name: NESTED[b * 7 + k], req: post_json("/tck/evaluate", format!("{{\"model\":\"model1\",\"invocable\":\"D\",\"input\":[{{\"name\":\"x\",\"value\":{}}}]}}", value)) });
+      }
+    }
+  }
   // failures whose message repeats a long non-ASCII text of the request (three alignments of the multi-byte characters)
   const LONG_NAMES: [&str; 3] = ["unknown-model-with-a-long-non-ascii-name-0", "unknown-model-with-a-long-non-ascii-name-1", "unknown-model-with-a-long-non-ascii-name-2"];
   const LONG_INPUTS: [&str; 3] = ["long-non-ascii-input-that-does-not-parse-0", "long-non-ascii-input-that-does-not-parse-1", "long-non-ascii-input-that-does-not-parse-2"];
